@@ -296,6 +296,12 @@ def orElseCatO (el : Elem α) (mv : Bool) (o : Option α) : Option α × Option 
   | some x => if mv then (some (el.mc x).1, some (el.mc x).2) else (some (el.cc x), some x)
   | none => (none, none)
 
+/-- P2988 [optional.ref.ctor] / converting assignment, `optional<T&>` from `optional<U>`: "if rhs.has_value() is true,
+    initializes val with convert-ref-init-val(*rhs); otherwise *this is empty" - on the address of the object held -/
+def orefConv : Option Nat → Option Nat
+  | some a => some a
+  | none => none
+
 /-! ### expected -/
 
 inductive E (α : Type) where
@@ -398,5 +404,51 @@ def isBest (cands : List (Option Cand)) (i : Nat) : Bool :=
 
 def select (cands : List (Option Cand)) : Option Nat :=
   (List.range cands.length).find? (isBest cands)
+
+/-! ### converting constructor: [variant.ctor]/14 over kinds of types -/
+
+/-- the values of an integer type (LP64, plain `char` signed) -/
+def range : K → Option (Int × Int)
+  | .bool => some (0, 1)
+  | .char => some (-128, 127)
+  | .short => some (-32768, 32767)
+  | .int => some (-2147483648, 2147483647)
+  | .long => some (-9223372036854775808, 9223372036854775807)
+  | .uint => some (0, 4294967295)
+  | _ => none
+
+/-- the type the last standard conversion of the sequence starts from: an unscoped enumeration converts like its
+    underlying type, a conversion function hands on its result type, an array decays to a pointer -/
+def srcOf : K → K
+  | .uenum => .int
+  | .toInt => .int
+  | .lit => .cptr
+  | k => k
+
+/-- [dcl.init.list]/7, clause by clause, for a source that is not a constant expression: a narrowing conversion is
+    (7.1) floating-point -> integer; (7.2) double -> float; (7.3) integer or unscoped enumeration -> floating-point;
+    (7.4) integer or unscoped enumeration -> an integer type that cannot represent all values of the original type;
+    (7.5, P1957R2) pointer -> bool -/
+def narrowing (a t : K) : Bool :=
+  let s := srcOf a
+  (s.isFloating && t.isIntegral) ||
+  (s == .double && t == .float) ||
+  (s.isIntegral && t.isFloating) ||
+  (match range s, range t with
+   | some (lo, hi), some (lo', hi') => !(decide (lo' ≤ lo) && decide (hi ≤ hi'))
+   | _, _ => false) ||
+  (s.isPtr && t == .bool)
+
+/-- [variant.ctor]/14 `variant(T&&)` / [variant.assign]/11: alternative `i` is the one selected for an argument of
+    kind `a`: it is among the `Ti` for which `Ti x[] = {std::forward<T>(t)};` is well-formed (an implicit conversion
+    exists and is not narrowing) and overload resolution over the imaginary `FUN(Ti)` of those alternatives picks it:
+    its conversion sequence is strictly better than that of every other such alternative -/
+def selects (a : K) (alts : List K) (i : Nat) : Prop :=
+  ∃ t r, alts[i]? = some t ∧ ics a t = some r ∧ narrowing a t = false ∧
+    ∀ j t' r', j ≠ i → alts[j]? = some t' → ics a t' = some r' → narrowing a t' = false → r < r'
+
+/-- the same, computed: the candidate table of the well-formed `FUN(Ti)` and the declarative `select` -/
+def selectK (a : K) (alts : List K) : Option Nat :=
+  select (alts.map fun t => (ics a t).map fun r => ⟨r, narrowing a t⟩)
 
 end Tetl.C07.Spec
